@@ -27,6 +27,24 @@ ASSUMPTIONS = ["every component issues its ping call before the first exchange c
 
 
 def generate(tape, tier="quick"):
+    if tape.chance(1, 400):
+        # a long acyclic chain: every relay derives its output's metadata from its input and its initial data from the
+        # initially pulled input, so the connect phase needs about one (listed upstream-first) or two (downstream-
+        # first) iterations per component - more than a hundred, all of them with progress
+        n = tape.rng_int(45, 70)
+        comps = [{"name": "k0", "start": 0, "inputs": [], "cache": True,
+                  "outputs": [{"name": "o0", "info": "known", "data": "const", "base": 100}]}]
+        links = []
+        for ci in range(1, n):
+            c = {"name": f"k{ci}", "start": 0, "cache": True,
+                 "inputs": [{"name": "i0", "info": "known", "pull": True, "units": None}],
+                 "outputs": [] if ci == n - 1 else [{"name": "o0", "info": ["from_input", "i0"], "data": "computed", "base": 0}]}
+            comps.append(c)
+            links.append({"src": [ci - 1, 0], "dst": [ci, 0]})
+        order = tape.choice(["down", "up", "shuffle"])
+        listing = list(range(n))[::-1] if order == "down" else (list(range(n)) if order == "up" else tape.shuffle(list(range(n))))
+        return {"engine": "E2", "components": comps, "links": links, "driver": "real", "listing": listing,
+                "link_order": tape.shuffle(list(range(len(links)))), "start_given": tape.chance(1, 2), "long_chain": True}
     n = tape.weighted([(2, 4), (3, 5), (4, 3), (5, 1)])
     comps = []
     for ci in range(n):
